@@ -257,6 +257,9 @@ VERUS = {
     'dropglue': dict(props=['C03', 'C10'], tier='quick',
                      desc='the drop / clear glue on extracted text (RawTableInner::drop_inner_table, Drop for RawTable, RawTable::clear incl. its scope guard -- which is not forgotten, so its closure runs when the block ends --, RawTable::clear_no_drop, Drop for RawDrain) against the contracts of drop_elements (unit iter), clear_no_drop (unit ctrl) and free_buckets, whose preconditions make double drop, leak and double free into obligations: an allocated table has every element dropped once and is then freed once, the unallocated singleton is left alone, clear drops everything and then resets the control bytes (an already empty table is left as it is), a drain drops what is left, resets its table and moves a valid empty table back into the map',
                      paired={}),
+    'clone': dict(props=['C11', 'C02'], tier='quick',
+                  desc='RawTable::clone_from_impl on extracted text (no-unwind path; its guard closure is in unit glue), for every table size and both widths, element identities ghost, T::clone an arbitrary function of the element: the control bytes of the target are the source\'s verbatim (so tombstones, probe chains and reachability are reproduced), items and growth_left are copied, and every FULL bucket holds a clone of the source\'s element in the same bucket; every control-byte and bucket access in bounds; terminates',
+                  paired={}),
     'assoc': dict(props=['C01', 'C06'], tier='quick',
                   desc='lemma-only unit over the contracts of units ctrl / rehash / resize: what rehash_in_place and resize_inner establish (every FULL bucket placed) is the reachability invariant F2 that insert and erase are proved to preserve; and lookup BY KEY: for a lawful Eq (the closure accepts exactly the buckets holding an element with key k) and a lawful Hash (such elements were stored under the probed hash), find_inner answers Some exactly when an element with key k is stored, and the bucket it returns holds one',
                   paired={}),
